@@ -159,6 +159,10 @@ type Reply struct {
 	// for stray replies:
 	StrayRid [16]byte
 	Recycled bool
+	// text connections: the reply was a RESP value (no RequestId on the wire)
+	Text    bool
+	TextVal *respVal // DATA item of a lock reply
+	TextRaw string   // a reply that is not a lock result (error line ...)
 }
 
 type ReqRec struct {
